@@ -251,7 +251,7 @@ def files(draw, prof=None):
             pool = STRINGS if p.get('mod_type_string') else [t_ for t_ in STRINGS if not looks_like_type_stmt(t_)]
             m['strs'].append([f'str_{L}', b.pick(pool)])
         if p['types']:
-            for j in range(b.i(0, 2) if b.chance(65) else 0):
+            for j in range(b.i(1, 2) if b.chance(65) else 0):
                 stem = b.pick(TYPE_STEMS) if p['kw_names'] else 't'
                 m['types'].append({'name': f'{stem}_{L}y{j}', 'attrs': [], 'comps': [['n', None]], 'procs': []})
         modules.append(m)
@@ -297,12 +297,12 @@ def files(draw, prof=None):
                 tm, tn = b.pick(cands)
                 local = tn if tm == m['name'] else access(b, mscope, tm, tn, allow_rename=False)
                 t['comps'].append([f'c{ti}', local, f'{tm}#{tn}'])
-            nb = b.i(0, 2)
+            nb = b.pick([0, 1, 2, 2])
             names = list(draw(st.permutations(BIND_NAMES)))
             for j in range(nb):
                 bname = f'{names[j]}{ti}'
                 pname = f'{b.pick(SUB_STEMS) if p["kw_names"] else "tbp"}_{L}t{ti}{j}'
-                real = b.chance(20)
+                real = b.chance(50) if j == 1 else b.chance(10)
                 r = _new_routine('sub', pname, 'thisr' if real else 'this', this=t['name'])
                 m['routines'].append(r)
                 attrs = []
@@ -316,7 +316,7 @@ def files(draw, prof=None):
                     r['_binding'] = bname
             intb = [pr for pr in t['procs'] if pr[0] == 'proc' and _routine(m, pr[2] or pr[1])['sig'] == 'this']
             realb = [pr for pr in t['procs'] if pr[0] == 'proc' and _routine(m, pr[2] or pr[1])['sig'] == 'thisr']
-            if intb and b.chance(35):
+            if intb and b.chance(75 if realb else 30):
                 targets = [intb[0][1]] + ([realb[0][1]] if realb else [])
                 t['procs'].append(['generic', f'{b.pick(BIND_NAMES)}_g{ti}', targets])
             if p.get('final') and b.chance(8):
@@ -753,7 +753,7 @@ def _body(b, env, depth, n):
 # ---------------------------------------------------------------------------------------------
 # layouts
 # ---------------------------------------------------------------------------------------------
-LAYOUT_TRIGGERS = ['end_gap', 'endjoin_iface', 'quotecomment', 'leadblank']
+LAYOUT_TRIGGERS = ['end_gap', 'endjoin_iface', 'leadblank', 'bind_kw_nocolon']
 
 
 @st.composite
@@ -763,7 +763,7 @@ def layouts(draw, plain=False, triggers=()):
         return {'stream': [0]}
     i = lambda lo, hi: draw(st.integers(lo, hi))   # noqa: E731
     ch = lambda pct: draw(st.integers(0, 99)) < pct   # noqa: E731
-    return {
+    lay = {
         'stream': draw(st.lists(st.integers(0, 1000), min_size=4, max_size=24)),
         'kwcase': i(0, 2), 'idcase': [0, 0, 1, 2][i(0, 3)], 'indent': i(0, 4),
         'cont': [0, 0, 1, 2, 3][i(0, 4)], 'contlead': ch(40), 'contcomment': ch(25), 'conttrail': ch(25),
@@ -773,9 +773,11 @@ def layouts(draw, plain=False, triggers=()):
         'endjoin_unit': ch(30), 'endjoin_type': ch(30),
         'end_gap': ch(60) if 'end_gap' in triggers else False,
         'endjoin_iface': ch(60) if 'endjoin_iface' in triggers else False,
-        'quotecomment': ch(60) if 'quotecomment' in triggers else False,
         'leadblank': ch(60) if 'leadblank' in triggers else False,
+        'bind_kw_nocolon': ch(60) if 'bind_kw_nocolon' in triggers else False,
     }
+    lay['quotecomment'] = bool(lay['conttrail'])      # comments after '&' may contain quote characters
+    return lay
 
 
 # ---------------------------------------------------------------------------------------------
@@ -864,9 +866,11 @@ def features(model):
     t = truth(model)
     if sum(1 for _, k in t['units'] if k == 'module'):
         tags.add('has-module')
-    if any('/' in pth and k != 'module' and pth.count('/') >= (2 if pth.split('/')[0] in
-           [u['name'] for u in model['units'] if u['k'] == 'module'] else 1) for pth, k in t['units']):
+    mods = {u['name'] for u in model['units'] if u['k'] == 'module'}
+    if any(k != 'module' and pth.count('/') >= (2 if pth.split('/')[0] in mods else 1) for pth, k in t['units']):
         tags.add('internal-procedure')
+    if sum(1 for u in model['units'] if u['k'] == 'module') >= 2:
+        tags.add('two-modules')
     for sc in t['scopes'].values():
         if sc['imports']:
             tags.add('imports')
